@@ -252,6 +252,66 @@ class InlineTemps(ast.NodeTransformer):
         return out
 
 
+class IfExpToIf(ast.NodeTransformer):
+    """x = a if c else b  ->  if c: x = a  else: x = b   (simple name targets, statement level)"""
+
+    def visit_FunctionDef(self, node):
+        self.generic_visit(node)
+        node.body = self._block(node.body)
+        return node
+
+    def _block(self, stmts):
+        out = []
+        for st in stmts:
+            for fld in ("body", "orelse", "finalbody"):
+                sub = getattr(st, fld, None)
+                if isinstance(sub, list) and not isinstance(st, (ast.FunctionDef, ast.ClassDef)):
+                    setattr(st, fld, self._block(sub))
+            if isinstance(st, ast.Assign) and len(st.targets) == 1 and isinstance(st.targets[0], ast.Name) and isinstance(st.value, ast.IfExp):
+                a = ast.Assign(targets=[ast.Name(id=st.targets[0].id, ctx=ast.Store())], value=st.value.body)
+                b = ast.Assign(targets=[ast.Name(id=st.targets[0].id, ctx=ast.Store())], value=st.value.orelse)
+                out.append(ast.copy_location(ast.If(test=st.value.test, body=[ast.copy_location(a, st)], orelse=[ast.copy_location(b, st)]), st))
+            elif isinstance(st, ast.Return) and isinstance(st.value, ast.IfExp):
+                a = ast.Return(value=st.value.body)
+                b = ast.Return(value=st.value.orelse)
+                out.append(ast.copy_location(ast.If(test=st.value.test, body=[ast.copy_location(a, st)], orelse=[ast.copy_location(b, st)]), st))
+            else:
+                out.append(st)
+        return out
+
+
+class ReturnToElse(ast.NodeTransformer):
+    """if c: return X  <rest>  ->  if c: return X  else: <rest>"""
+
+    def _block(self, stmts):
+        out = []
+        for i, st in enumerate(stmts):
+            if isinstance(st, ast.If) and not st.orelse and st.body and isinstance(st.body[-1], ast.Return) and i + 1 < len(stmts):
+                rest = self._block(stmts[i + 1:])
+                out.append(ast.copy_location(ast.If(test=st.test, body=st.body, orelse=rest), st))
+                return out
+            out.append(st)
+        return out
+
+    def visit_FunctionDef(self, node):
+        self.generic_visit(node)
+        node.body = self._block(node.body)
+        return node
+
+
+class DeMorgan(ast.NodeTransformer):
+    """if not (a and b)  <->  if (not a) or (not b);   if a and b: X else: Y  ->  if (not a) or (not b): Y else: X"""
+
+    def visit_If(self, node):
+        self.generic_visit(node)
+        t = node.test
+        if isinstance(t, ast.BoolOp) and len(t.values) == 2 and node.orelse and not (len(node.orelse) == 1 and isinstance(node.orelse[0], ast.If)):
+            op = ast.Or() if isinstance(t.op, ast.And) else ast.And()
+            neg = ast.BoolOp(op=op, values=[ast.UnaryOp(op=ast.Not(), operand=v) for v in t.values])
+            return ast.copy_location(ast.If(test=neg, body=node.orelse, orelse=node.body), node)
+        return node
+
+
 def reformat(tree):
     return tree
 
@@ -269,6 +329,9 @@ VARIANTS = {
     "unpack_split": lambda t: UnpackSplit().visit(t),
     "reorder_methods": lambda t: ReorderMethods().visit(t),
     "inline_temps": lambda t: InlineTemps().visit(t),
+    "ifexp_to_if": lambda t: IfExpToIf().visit(t),
+    "return_to_else": lambda t: ReturnToElse().visit(t),
+    "de_morgan": lambda t: DeMorgan().visit(t),
 }
 
 
